@@ -1889,6 +1889,11 @@ class C07(Family):
     extra_modules = extra_modules + ["CtrlVerif.Props.C07GenXFind", "CtrlVerif.Props.C07GenXPre", "CtrlVerif.Props.C07GenXConn",
                                      "CtrlVerif.Props.C07GenX"]
     # <<< py2lean-interconnect
+    # >>> py2lean-iolist (notes/NOTES-py2lean-iolist.md): Generated/ICLIn.lean, ICLOut.lean (inplist / outlist loops of interconnect())
+    extra_modules = extra_modules + ["CtrlVerif.Props.C07GenXList", "CtrlVerif.Props.C07GenXListBare",
+                                     "CtrlVerif.Props.C07GenXListTop", "CtrlVerif.Props.C07GenXListModel",
+                                     "CtrlVerif.Props.C07GenXListNone"]
+    # <<< py2lean-iolist
 
     def pre_build(self):
         import os
@@ -1900,6 +1905,12 @@ class C07(Family):
         problems = problems + problems_x
         self.gen_info.update(info_x)
         # <<< py2lean-interconnect
+        # >>> py2lean-iolist
+        from core import py2lean_iolist
+        problems_l, info_l = py2lean_iolist.regenerate(os.environ.get("VERIF_REPO") or "/repo", leanproj.LEAN)
+        problems = problems + problems_l
+        self.gen_info.update(info_l)
+        # <<< py2lean-iolist
         return problems
     # <<< py2lean-ic
     externals = ["numpy array arithmetic (matmul, +=) inside _compute_static_io / linearize",
